@@ -12,7 +12,8 @@ def fam_hier(rng, domains=2):
     multiplexer / subtractor feedback, a memory and an AutoReset are dropped into random boxes."""
     py4hw = quiet_import()
     from py4hw.logic.clock import AutoReset
-    hw = py4hw.HWSystem()
+    hw = D.new_hw()
+    late = rng.random() < .5        # history: the drivers are placed AFTER the hierarchy has been looked up / simulated once
     W = rng.randint(2, 6)
     din, sel = hw.wire('din', W), hw.wire('sel', 1)
     ins = [din, sel]
@@ -33,6 +34,7 @@ def fam_hier(rng, domains=2):
         return False
     # ---- drivers
     doms = {}
+    placements = []
     cand = [b for b in boxes if b is not hw]
     rng.shuffle(cand)
     recipe = []
@@ -63,8 +65,8 @@ def fam_hier(rng, domains=2):
             ins.append(wake); i = rng.randrange(W)
             recipe.append(lambda src=src, i=i, b1=b1, k=k: py4hw.Bit(hw, 'enbit%d' % k, src, i, b1))
             recipe.append(lambda b1=b1, wake=wake, en=en, k=k: py4hw.Or2(hw, 'enor%d' % k, b1, wake, en))
-        drv = py4hw.ClockDriver('clk_%s' % bx.name, base=hw.clockDriver, enable=en)
-        bx.clockDriver = drv
+        drv = py4hw.ClockDriver(rng.choice(D.DRIVER_NAMES), base=hw.clockDriver, enable=en)
+        placements.append((bx, drv))
         doms[bx.name] = (drv, en, kind)
     # ---- datapath
     d0, dm = hw.wire('d0', W), hw.wire('dm', W)
@@ -85,8 +87,20 @@ def fam_hier(rng, domains=2):
         ar = hw.wire('arst', 1); ab = rng.choice(boxes)
         recipe.append(lambda: AutoReset(ab, 'arst', ar))
     rng.shuffle(recipe)
+    if not late:
+        for bx, drv in placements: D.assign(bx, drv)
     for mk in recipe: mk()
-    return D.Built(hw, ins, {'family': 'hier', 'W': W, 'N': N, 'boxes': len(boxes), 'domains': domains,
+    if late:
+        # a first life in the system domain: simulator obtained, every object's driver looked up, a few edges run ...
+        sim = hw.getSimulator()
+        for o in boxes: py4hw.getObjectClockDriver(o)
+        sim.clk(0)                  # (no edge: the Coq model of the design starts from power-up)
+        # ... then the domains are configured (one of them twice: a driver is placed, looked up, and replaced)
+        for j, (bx, drv) in enumerate(placements):
+            if j == 0 and rng.random() < .5:
+                D.assign(bx, py4hw.ClockDriver('tmp', base=hw.clockDriver)); hw.getSimulator()
+            D.assign(bx, drv)
+    return D.Built(hw, ins, {'family': 'hier', 'late_drivers': late, 'W': W, 'N': N, 'boxes': len(boxes), 'domains': domains,
                              'enables': {k: v[2] for k, v in doms.items()}}, {k: (v[0], v[1]) for k, v in doms.items()})
 
 
@@ -118,8 +132,25 @@ def random_tree(rng, with_top_driver=True, n_drivers=None):
         nd = rng.randint(0, 4) if n_drivers is None else n_drivers
         drivers = []
         if isinstance(root, py4hw.HWSystem):
+            root._vf_driver = root.clockDriver
             drivers.append(root.clockDriver)
-        for k, o in enumerate(rng.sample(objs[1:], min(nd, len(objs) - 1))):
-            drv = py4hw.ClockDriver('drv%d' % k)
-            o.clockDriver = drv; drivers.append(drv)
+        targets = rng.sample(objs[1:], min(nd, len(objs) - 1))
+        n_first = rng.randint(0, len(targets))
+        def place(k, o):
+            drv = py4hw.ClockDriver(rng.choice(D.DRIVER_NAMES), base=drivers[0] if drivers and rng.random() < .7 else None)
+            D.assign(o, drv); drivers.append(drv)
+        for k, o in enumerate(targets[:n_first]): place(k, o)
+        # history: some lookups happen now (every object, or the simulator), the rest of the drivers is placed afterwards,
+        # and one already placed driver may be taken away again
+        hist = rng.choice(['none', 'lookups', 'simulator', 'both'])
+        if hist in ('lookups', 'both'):
+            for o in rng.sample(objs, len(objs)):
+                try: py4hw.getObjectClockDriver(o)
+                except Exception: pass
+        if hist in ('simulator', 'both') and isinstance(root, py4hw.HWSystem):
+            try: root.getSimulator()
+            except Exception: pass
+        for k, o in enumerate(targets[n_first:]): place(n_first + k, o)
+        if n_first and hist != 'none' and rng.random() < .4:
+            D.assign(targets[0], None)
     return root, objs, drivers
